@@ -90,7 +90,7 @@ PROPS = {
         "assumptions": [],
     },
     "C09": {
-        "coq_deps": ["VerifyFacts"],
+        "coq_deps": ["VerifyFacts", "HashingBinding", "InsertRefine", "AuditRebuild", "AuditSound"],
         "steps": [{"sub": "audits", "quick": [0], "thorough": [1]}],
         "rule": "adversarial single-epoch append-only proofs against the real auditor on real start trees (both configurations): frontier of "
                 "the start tree as unchanged nodes combined with fresh leaves anywhere, leaves strictly below an unchanged node, an inserted "
@@ -98,9 +98,11 @@ PROPS = {
                 "value; the end hash is chosen freely (root of the auditor's own rebuild); accepted => every claimed element must be a node of "
                 "the rebuilt end tree (ground truth); plus multi-epoch proofs with inconsistent lists and replaced/altered hashes and epochs; "
                 "every rebuild hash and verdict recomputed by the extracted model",
-        "partial": "structural theorems proved (prefix-freeness of accepted proofs, list lengths, determinism of the hash list); the semantic "
-                   "conclusion needs the rebuild = canonical-trie refinement, decided per run by correspondence + ground-truth oracle",
-        "assumptions": [],
+        "partial": None,
+        "assumptions": ["the two root hashes are those of well-formed trees (troot_ok: Rust-typed labels and digests, trie shape, u64 epochs) - for the code this is C01",
+                        "proof_ok: the proof's labels are well-formed and CANONICAL (no stray bits beyond the length) and its values are 32-byte digests; "
+                        "labels with stray bits are exercised on the implementation by the adversarial harness only",
+                        "collision resistance only as the explicit disjunct (Collision H; experimental configuration: or a zero-digest preimage)"],
     },
     "C06": {
         "coq_deps": ["DirSound", "HashingBinding"],
